@@ -386,6 +386,28 @@ type Gateway struct {
 	AuthzLog []authorizer.AttributesRecord
 	// Outer wraps the chain (e.g. to inject a panic into the response writer); may be nil.
 	Outer func(http.Handler) http.Handler
+	// parks: requests (by harness id) that the authenticator holds until released (a slow token review)
+	parks map[string]*park
+}
+
+type park struct {
+	parked  chan struct{}
+	release chan struct{}
+	once    sync.Once
+}
+
+// ParkInAuthn makes the authenticator hold the request with the given harness id - the way a slow token-review webhook
+// does - until release is called (or the request is cancelled). parked is closed when the request has arrived there.
+func (g *Gateway) ParkInAuthn(id string) (parked <-chan struct{}, release func()) {
+	p := &park{parked: make(chan struct{}), release: make(chan struct{})}
+	g.mu.Lock()
+	if g.parks == nil {
+		g.parks = map[string]*park{}
+	}
+	g.parks[id] = p
+	g.mu.Unlock()
+	var once sync.Once
+	return p.parked, func() { once.Do(func() { close(p.release) }) }
 }
 
 // SetToken maps a bearer token to an identity.
@@ -398,6 +420,18 @@ func (g *Gateway) SetToken(token string, id Identity) {
 type authn struct{ g *Gateway }
 
 func (a authn) AuthenticateRequest(req *http.Request) (*authenticator.Response, bool, error) {
+	if id := req.Header.Get(IDHeader); id != "" {
+		a.g.mu.Lock()
+		p := a.g.parks[id]
+		a.g.mu.Unlock()
+		if p != nil {
+			p.once.Do(func() { close(p.parked) })
+			select {
+			case <-p.release:
+			case <-req.Context().Done():
+			}
+		}
+	}
 	h := req.Header.Get("Authorization")
 	if !strings.HasPrefix(h, "Bearer ") {
 		return nil, false, nil
